@@ -161,6 +161,35 @@ def run(ck, F):
         bad += ['returns ' + p['result'][:60] for p in paths if 'result' in p]
         ck.check(R3, sid, not bad, f'{fid} does not allocate a fresh node on every path: {bad}', loc=f['loc'], fn=fid)
 
+    # a declaration entered into a scope that already holds declarations is as fresh as the first one
+    R3b = ck.rule('C05.declaration-is-fresh', 'every path of a second Scope::make_* request (redeclaration, new type under a known name, new '
+                  'name; evaluated on the state the first request left) returns a node that this very request allocated: no path hands '
+                  'back a declaration that was entered earlier', floor=16)
+    import keyrule as _kr
+    from symex import Sym as _SymK, Unsupported as _Uns
+    _SK = _SymK(F, opaque=_kr.key_opaque(F), max_depth=64)
+    _makers = [g for g in F.fns_in('ipr::impl::Scope') if g['name'].startswith('make_') and g.get('body') is not None]
+    if len(_makers) < 8:
+        raise AnalysisBroken(f'only {len(_makers)} Scope::make_* functions found')
+    for g in sorted(_makers, key=lambda g: g['id']):
+        gid = '::'.join(contracts.fn_qname(g['id']).split('::')[-2:]) + '/' + str(len(g['params']))
+        try:
+            firsts = [r for r in _SK.run(g['id']) if r[1] == 'return']
+            seconds = []
+            for st1, _k, _v in firsts:
+                seconds += [(st1, r) for r in _SK.run(g['id'], args=_kr.qparams(len(g['params'])), state=st1.fork()) if r[1] == 'return']
+        except _Uns as e:
+            raise AnalysisBroken(f'{g["id"]}: outside the evaluator language: {e}')
+        if not seconds:
+            raise AnalysisBroken(f'{g["id"]}: no returning path of a second request')
+        for j, (st1, (st2, _k2, v2)) in enumerate(seconds):
+            node = v2[1] if isinstance(v2, tuple) and v2[:1] == ('addr',) else v2
+            fresh = isinstance(node, tuple) and node[:1] == ('obj',) and node[1] in st2.heap and node[1] not in st1.heap
+            how = contracts.render_conds(st2.conds[len(st1.conds):], st2, {})[:100]
+            ck.check(R3b, f'{gid}#second{j}', fresh, f'{g["id"]} on a scope that already holds a declaration (when {how or "always"}) returns '
+                     f'`{contracts.render(v2, st2, {})[:80]}`, not a node allocated by this request: two calls of a generative constructor '
+                     'yield the same node', loc=g['loc'], fn=g['id'])
+
     # ---------------------------------------------------------------- const-only interface
     R4 = ck.rule('C05.const-interface', 'every member function of an interface class is const and no interface class has mutable or '
                  'public non-const data: nothing observable can be changed through the interface', floor=150)
